@@ -289,3 +289,20 @@ reg(
     TECHNIQUE="relational runtime monitoring: consistency of dial address, Host header, TLS server name and request target with an independent URL reading",
     REQUIRED_MONITORS={"quick": {"url": 1500, "dial": 1000, "host_header": 1000, "request_target": 1000, "tls_server_name": 40, "same_pool": 5, "manager_sequence": 6}, "thorough": {"url": 20000, "tls_server_name": 1000}},
 )
+
+reg(
+    "C02",
+    RULE="(configuration, schedule): configurations = 2-3 worker threads x 1-2 requests each on one pool, maxsize {1,2}, block {True,False}, optional closer thread calling close(), optional failing first attempt (connection reset or 503 retried), preloaded or streamed+released responses; schedules = every interleaving with at most 1 (quick) / 2 (thorough) preemptions at line granularity inside _get_conn/_put_conn/close/_close_pool_connections/release_conn/urlopen/_new_conn (breadth-first, capped per configuration) plus seeded random-walk and PCT-style priority schedules over all instrumented lines of connectionpool.py, response.py and connection.py; plus real-scheduler stress runs (6-12 threads x 40-150 requests, stdlib queue.LifoQueue with monitor hooks under its own mutex, switch interval 1e-6, seeded yield injection); a case is (configuration, decision list or seed); non-trivial = at least one preemption; distinct interleavings are counted by the hash of the switch sequence",
+    ASSUMPTIONS=COMMON_ASSUMPTIONS + [
+        "controlled mode: exactly one worker runs at a time; preemption points are sys.monitoring LINE events, so switches between two bytecodes of one statement are not explored",
+        "the pool's queue is replaced through the documented QueueCls extension point by a cooperative LIFO queue with the semantics of queue.LifoQueue (maxsize, Full/Empty, blocking get with timeout); preemption inside the C code of queue/threading is not explored",
+        "socket I/O never blocks (in-memory network), so a schedule in which no thread is enabled is a genuine deadlock / lost wake-up of the pool code",
+        "'every request eventually completes' is judged as: in every explored schedule all threads reach their end",
+    ],
+    SHARDS={"quick": 8, "thorough": 16},
+    BUDGET={"quick": 60, "thorough": 480},
+    LEVEL_TEXT="Schedule exploration with runtime monitors: the real pool code runs on real threads under a controlled scheduler (one thread at a time, baton passed at sys.monitoring LINE events); per executed interleaving the monitors check socket ownership (no connection used by a thread that does not hold it, none leased or queued twice), the open-socket bound for block=True, that each response carries its own request id, that every thread terminates (no enabled thread = deadlock / lost wake-up), the exception whitelist under a racing close() (normal result or ClosedPoolError only), and that no socket survives dropping the pool object.",
+    LEVEL_NOTE="Trusts the scheduler (vf/sched.py), the cooperative queue's equivalence to queue.LifoQueue and the in-memory network; explores up to the stated preemption bound plus random schedules, not all interleavings.",
+    TECHNIQUE="controlled-scheduler interleaving exploration (preemption-bounded + randomized/PCT) with ownership, bound, termination and exception-whitelist monitors",
+    REQUIRED_MONITORS={"quick": {"schedule": 1500, "termination": 1500, "results": 1500, "post_mortem_sweep": 1000, "stress_run": 4}, "thorough": {"schedule": 30000, "termination": 30000}},
+)
